@@ -135,9 +135,17 @@ def gen_lines(rng):
     words = text.split(' ')
     lines, cur = [], ''
     for word in words:
-        cur = word if not cur and not lines else cur + ' ' + word
+        cur = word if not cur else cur + ' ' + word
         if rng.random() < 0.25:
-            if rng.random() < 0.5:
+            mode = rng.random()
+            if mode < 0.3:
+                # continuation announced by & : the next line starts in
+                # column 1 (only the blank inserted by content() separates
+                # the two words)
+                lines.append(cur + rng.choice(['&', '& more', '&$']))
+                cur = ''
+                continue
+            if mode < 0.65:
                 cur += rng.choice([' $ a comment', '$x', ' & ', '   $ 1 2 3'])
             lines.append(cur)
             cur = '     '
@@ -165,7 +173,8 @@ def impl_split(text):
     from props import c02
     try:
         with c02.traced():
-            return tuple(surfacecard.split(text))
+            return tuple('<None>' if g is None else g
+                         for g in surfacecard.split(text))
     except AttributeError:
         return None
 
@@ -199,6 +208,7 @@ def impl_parse(text):
     except Exception as exc:            # pylint: disable=broad-except
         return ('err', exc_name(exc))
     (name, (bc, tr, typ, params)), = parsed.items()
+    tr = '<None>' if tr is None else tr     # a group that did not take part
     return ('ok', bc, name, tr, typ, [float(v) for v in params])
 
 
